@@ -302,9 +302,9 @@ def _parse_gtf(path):
     return tr
 
 
-def _novel_output_problems(with_annotation, prepare=None, expect=None):
+def _novel_output_problems(with_annotation, prepare=None, expect=None, extra=()):
     import gzip, os, shutil
-    d, p = _run_pipeline([], with_annotation, prepare)
+    d, p = _run_pipeline(list(extra), with_annotation, prepare)
     problems = []
     try:
         if p.returncode != 0:
@@ -1025,3 +1025,52 @@ def c04_monoexon_registration(tier, rng):
                 "obligation": "C04.monoexon_registration", "inputs": {"seed": base + k}, "observed": p[:2],
                 "required": "transcript_model_reads references only reported transcripts", "replay_call": "contracts.c_novel:replay_monoexon_registration"}]}
     return {"cases": n * 30, "bound": "%d x 30 random cluster sets" % n, "violations": [], "samples": [{"seed": base}]}
+
+
+
+# ---- a rare isoform next to a highly expressed one: reads freed by a deleted model are not listed for it ---------------------------------------------------
+def _rare_isoform_inputs(d):
+    """annotation-free: 300 reads of a 4-exon isoform and 2 reads of its exon-skipping variant in the gene-free stretch of the bundled reference
+    (PacBio settings: the rare model passes the absolute cut-off of the path stage and is deleted by the relative one afterwards)"""
+    import gzip, os
+    import pysam
+    seq = "".join(l.strip() for l in gzip.open(os.path.join(d, "chr9.4M.fa.gz"), "rt") if not l.startswith(">")).upper()
+    inp = pysam.AlignmentFile(os.path.join(d, "chr9.4M.ont.sim.polya.bam"))
+    tid = inp.get_tid("chr9")
+    base = 3041000
+    full = [(base + 1000, base + 1300), (base + 2000, base + 2200), (base + 3000, base + 3200), (base + 4000, base + 4400)]
+    skip = [full[0], full[1], full[3]]
+    recs = []
+    for name, ex, n in (("major", full, 300), ("minor", skip, 2)):
+        for k in range(n):
+            a = pysam.AlignedSegment(inp.header)
+            a.query_name, a.flag, a.reference_id, a.reference_start, a.mapping_quality = "%s_%d" % (name, k), 0, tid, ex[0][0] - 1, 60
+            cig, s_ = [], ""
+            for i, (x, y) in enumerate(ex):
+                if i:
+                    cig.append((3, x - ex[i - 1][1] - 1))
+                cig.append((0, y - x + 1)); s_ += seq[x - 1:y]
+            cig.append((4, 30)); s_ += "A" * 30
+            a.cigartuples, a.query_sequence = cig, s_
+            a.query_qualities = pysam.qualitystring_to_array("I" * len(s_))
+            a.set_tag("NM", 0)
+            recs.append(a)
+    with pysam.AlignmentFile(os.path.join(d, "rare.bam"), "wb", template=inp) as out:
+        for a in recs:
+            out.write(a)
+    pysam.index(os.path.join(d, "rare.bam"))
+    return "rare.bam", "chr9.4M.gtf.gz"
+
+
+def replay_rare_isoform(d):
+    p = _novel_output_problems(False, _rare_isoform_inputs, None, ["-d", "pacbio_ccs"])
+    return (not p), "rare isoform next to a major one: %s" % (p[:3] or "outputs consistent")
+
+
+@bounded("C04.rare_isoform_reads", ["C04"], note="one annotation-free PacBio run on 300 reads of a 4-exon isoform and 2 reads of its exon-skipping variant: the output "
+         "invariants of C04.pipeline_outputs, in particular transcript_model_reads names only transcripts of transcript_models.gtf")
+def c04_rare_isoform(tier, rng):
+    p = _novel_output_problems(False, _rare_isoform_inputs, None, ["-d", "pacbio_ccs"])
+    viol = [{"obligation": "C04.rare_isoform_reads", "inputs": {"scenario": "300 + 2 reads"}, "observed": p[:4],
+             "required": "novel models evidence-backed; the reads table names reported transcripts only", "replay_call": "contracts.c_novel:replay_rare_isoform"}] if p else []
+    return {"cases": 1, "bound": "1 pipeline run", "violations": viol, "samples": [{"major": 300, "minor": 2}]}
